@@ -357,6 +357,11 @@ def run(ctx):
             kinds[(j * 97 + 13) % n] = k
         kinds[n - 1] = 'good' if n % 2 else 'refused'
         cases.append({'kinds': kinds, 'mode': mode, 'threads': threads, 'choices': None})
+    # ... and lists of healthy targets only, the one with the worst findings listed first (the status of the run is its status)
+    for n, threads, mode in ((1030, 16, 'json'),) if ctx.quick else ((1030, 16, 'json'), (1100, 3, 'text'), (2049, 32, 'json'), (1025, 1, 'text')):
+        cases.append({'kinds': ['fail'] + ['good'] * (n - 1), 'mode': mode, 'threads': threads, 'choices': None})
+        if not ctx.quick:
+            cases.append({'kinds': ['good'] * 3 + ['warn'] + ['good'] * (n - 4), 'mode': mode, 'threads': threads, 'choices': None})
     ctx.map(cases)
     ctx.hyp('strat_list', 3000 if ctx.quick else 40000, label=1, shards=16)
     free = [{'kinds': [rng.choice(ALLK) for _ in range(rng.randint(2, 5))] + ['good', 'refused'], 'mode': rng.choice(['text', 'json']), 'threads': rng.choice([2, 3, 5]), 'choices': None} for _ in range(40 if ctx.quick else 600)]
